@@ -9,6 +9,8 @@
  *   start login <seed> | start version | start handshake <raw_mode> <autofrag> <fragsize> | start tunnel
  *       | start sendchunks <n> <hexpayload>   (n times: outpkt := payload, send_chunk; no answers needed)
  *       | start readq <buflen>               (one read_dns_withq on the next datagram)
+ *       | start sendone ping|version|login|probe|setfrag|rawlogin|lazy|downenctest <arg>   (one send_* call)
+ *       | start rawudp <seed>                (handshake_raw_udp)
  *   ans <hexdatagram>      the DNS socket is readable with this datagram
  *   tun <hexframe>         the tun device is readable
  *   tick                   select times out
@@ -253,7 +255,7 @@ static struct {
 	unsigned char *payload;
 	size_t plen;
 } job;
-enum { J_LOGIN = 1, J_VERSION, J_HANDSHAKE, J_TUNNEL, J_SENDCHUNKS, J_READQ };
+enum { J_LOGIN = 1, J_VERSION, J_HANDSHAKE, J_TUNNEL, J_SENDCHUNKS, J_READQ, J_SENDONE, J_RAWUDP };
 
 static void *worker_main(void *arg)
 {
@@ -282,6 +284,23 @@ static void *worker_main(void *arg)
 		}
 		break;
 	}
+	case J_SENDONE: {
+		/* one sender, no answer awaited: a = which, b = argument */
+		char login[16];
+		switch (job.a) {
+		case 0: send_ping(DNS_FD); break;
+		case 1: send_version(DNS_FD, (uint32_t) job.b); break;
+		case 2: login_calculate(login, 16, password, job.b); send_login(DNS_FD, login, 16); break;
+		case 3: send_fragsize_probe(DNS_FD, job.b); break;
+		case 4: send_set_downstream_fragsize(DNS_FD, job.b); break;
+		case 5: send_raw_udp_login(DNS_FD, job.b); break;
+		case 6: send_lazy_switch(DNS_FD); break;
+		case 7: send_downenctest(DNS_FD, (char) job.b, 1); break;
+		default: break;
+		}
+		break;
+	}
+	case J_RAWUDP: r = handshake_raw_udp(DNS_FD, job.a); break;
 	case J_READQ: {
 		struct query q;
 		char *buf = xmalloc(job.a > 0 ? job.a : 1);
@@ -453,6 +472,14 @@ int main(void)
 			else if (!strcmp(tok[1], "handshake") && ntok == 5) { job.kind = J_HANDSHAKE; job.a = atoi(tok[2]); job.b = atoi(tok[3]); job.c = atoi(tok[4]); }
 			else if (!strcmp(tok[1], "tunnel") && ntok == 2) job.kind = J_TUNNEL;
 			else if (!strcmp(tok[1], "sendchunks") && ntok == 4) { job.kind = J_SENDCHUNKS; job.a = atoi(tok[2]); job.payload = hex_alloc(tok[3], &job.plen); if (!job.payload) { puts("bad-op"); continue; } }
+			else if (!strcmp(tok[1], "sendone") && ntok == 4) {
+				static const char *names[] = { "ping", "version", "login", "probe", "setfrag", "rawlogin", "lazy", "downenctest", NULL };
+				int k;
+				job.kind = J_SENDONE; job.a = -1; job.b = (int) strtol(tok[3], NULL, 10);
+				for (k = 0; names[k]; k++) if (!strcmp(tok[2], names[k])) job.a = k;
+				if (job.a < 0) { puts("bad-op"); continue; }
+			}
+			else if (!strcmp(tok[1], "rawudp") && ntok == 3) { job.kind = J_RAWUDP; job.a = (int) strtol(tok[2], NULL, 10); }
 			else if (!strcmp(tok[1], "readq") && ntok == 3) { job.kind = J_READQ; job.a = atoi(tok[2]); }
 			else { puts("bad-op"); continue; }
 			start_job();
